@@ -167,7 +167,8 @@ func solveAllNA(g *gen, dir string, timeout int, crossCheck bool, only func(*obl
 			if o.Kind == "canary" {
 				to = 3
 			}
-			q := g.queryFor(b, o.idx)
+			_ = b
+			q := g.emitTarget(g.c.strMode, o.Kind == "smoke", noAssume, o.idx)
 			a, all := race(dir, g.name+"__"+o.Name, q, to, g.c.strMode, crossCheck && o.Kind != "smoke" && o.Kind != "canary")
 			res[i] = oblResult{Obl: o, Answer: a, All: all, Query: q, StrMode: g.c.strMode}
 		}(i, o)
